@@ -1255,7 +1255,7 @@ inline std::string pair_case(int op, PairCtx const& c, V a, V b)
 // ---------------------------------------------------------------------------------------
 
 struct Tally {
-    std::uint64_t evaluations{0}, nontrivial{0}, skipped{0}, api_gap{0};
+    std::uint64_t evaluations{0}, nontrivial{0}, skipped{0}, ties{0};
 };
 
 /// guard + sanitizer bookkeeping around one call pair (std first, then tetl inside a guard);
@@ -1390,6 +1390,7 @@ inline void run_pair(mc::Reporter& r, PairEntry const& e, int range_a, int range
                 if (!same_pd && (is_fp(e.fr) ? a.f != 0 : a.i != 0)) { ++t.nontrivial; }
             } else if ((i128(a.i) * c.N) % c.D != 0) {
                 ++t.nontrivial;
+                if (op == P_ROUND && 2 * (iabs(i128(a.i) * c.N) % c.D) == c.D) { ++t.ties; }
             }
         } else if (!same_pd && (is_fp(e.fr) ? a.f != 0 : a.i != 0) && (is_fp(e.tr) ? b.f != 0 : b.i != 0)) {
             ++t.nontrivial;
@@ -1432,6 +1433,7 @@ inline void run_pair(mc::Reporter& r, PairEntry const& e, int range_a, int range
     r.count("distinct_nontrivial", t.nontrivial);
     r.count("skipped_not_representable", t.skipped);
     r.count("pairs");
+    r.count("round_exact_ties", t.ties);
     for (int op = 0; op < P_COUNT; ++op) {
         if (gaps[op] != 0) { r.count(mc::cat("api_gap:", pair_subject(op)).c_str(), gaps[op]); }
     }
